@@ -31,7 +31,7 @@ import (
 )
 
 type exception struct {
-	Kind   string `json:"kind"`   // config-method | var
+	Kind   string `json:"kind"`   // config-method | readonly-method | var
 	Name   string `json:"name"`   // method name / variable name prefix
 	Reason string `json:"reason"` // one line
 	Used   bool   `json:"used"`
@@ -110,10 +110,17 @@ func main() {
 		os.Exit(2)
 	}
 	a := &analyzer{l: l, fset: l.fset, facts: map[string]*fact{}, memo: map[string]bool{}, retMemo: map[string][]oset{}, retBusy: map[string]bool{},
-		staticEnvs: map[*funcInfo]*env{}, entrySeen: map[*funcInfo]bool{}, configMeth: map[string]string{}, usedConfig: map[string]bool{}, notes: map[string]bool{}}
+		staticEnvs: map[*funcInfo]*env{}, entrySeen: map[*funcInfo]bool{}, configMeth: map[string]string{}, readonlyMeth: map[string]string{}, usedConfig: map[string]bool{}, notes: map[string]bool{}}
 	for _, e := range excs {
-		if e.Kind == "config-method" {
+		switch e.Kind {
+		case "config-method":
 			a.configMeth[e.Name] = e.Reason
+		case "readonly-method":
+			a.readonlyMeth[e.Name] = e.Reason
+		case "var":
+		default:
+			fmt.Fprintln(os.Stderr, "exceptions: unknown kind", e.Kind)
+			os.Exit(2)
 		}
 	}
 	t0 := time.Now()
@@ -125,7 +132,7 @@ func main() {
 
 	out := &output{Entries: a.entries, TypeErrors: l.errs, FreshSkipped: a.nFresh}
 	for i := range excs {
-		if excs[i].Kind == "config-method" {
+		if excs[i].Kind == "config-method" || excs[i].Kind == "readonly-method" {
 			excs[i].Used = a.usedConfig[excs[i].Name]
 		}
 	}
